@@ -2,7 +2,7 @@
 import os
 
 from .. import flow, mir, pest
-from ..mir import const_int, last_seg, render, strip_sites
+from ..mir import const_int, last_seg, render, strip_sites, const_str
 from .c02 import dom_facts
 from . import c05
 
@@ -29,6 +29,10 @@ def run(ctx):
     ctx.rule("R19-6", "the grammar accepts exactly the well-formed infix expressions: `calculation`, evaluated as data (PEG with "
                       "implicit whitespace), agrees with the reference expr = term (op term)*, term = num | ( expr ) on "
                       "every token sequence of up to 5 tokens (thorough: 6) over {1, 2.5, + - * / ^, ( )}")
+    ctx.rule("R19-7", "classification: is_arithmetic is the conjunction of its regex tests (structure read from the MIR), and "
+                      "evaluated on every string of up to 4 characters over {1 . + ^ ( ) space a |} with the program's own "
+                      "regex engine it agrees with the statement: only characters of the arithmetic alphabet, at least one "
+                      "digit, at least one operator (audited refinement: the line ends in a digit, `.`, blank or `)`)")
     ctx.rule("R19-4", "no panic-capable site in the evaluators is undischarged; integer division only under rhs != 0")
     gpath = os.path.join(ctx.root, "src", "calculator", "grammar.pest")
     try:
@@ -45,6 +49,7 @@ def run(ctx):
             num_syntax_rule(ctx, crate, g, "R19-5")
             infix_rule(ctx, crate, g)
         mode_rule(ctx, crate)
+        classification_rule(ctx, crate)
         panic_rule(ctx, crate)
 
 
@@ -287,3 +292,66 @@ def infix_rule(ctx, crate, g):
            not bad, key="R19-6|grammar|infix-agreement", crate=crate.kind,
            detail=None if not bad else "`%s`: the grammar %s it, the reference %s" % (
                bad[0][0], "accepts" if bad[0][2] else "rejects", "accepts" if bad[0][1] else "rejects"))
+
+
+def classification_rule(ctx, crate):
+    import itertools
+    from .. import refacts
+    b = crate.fn("tools::is_arithmetic")
+    if not ctx.require(b is not None, "R19-7", "R19-7|anchor", "tools::is_arithmetic not found"):
+        return
+    ctx.analysed(b)
+    # structure: necessary tests (False -> return false) and the deciding test (its value is returned)
+    necessary, deciding = [], []
+    false_blocks = {bi for bi, si in b.defs.get(0, []) if mir.const_bool(b.def_expr(bi, si)) is False}
+    for bb in sorted(b.reachable):
+        for tgt, atom, val in b.switch_edges(bb):
+            a = strip_sites(atom)
+            if a[0] == "call" and last_seg(a[1]) == "re_contains" and val is False and const_str(a[2][1]) is not None:
+                # every path from the False target assigns `false`
+                seen, todo, ok = set(), [tgt], True
+                while todo:
+                    x = todo.pop()
+                    if x in seen:
+                        continue
+                    seen.add(x)
+                    if x in false_blocks:
+                        continue
+                    if b.term(x)["k"] == "return" or any(bi == x for bi, si in b.defs.get(0, [])):
+                        ok = False
+                        break
+                    todo.extend(b.succs[x])
+                if ok:
+                    necessary.append(const_str(a[2][1]))
+    for bi, si in b.defs.get(0, []):
+        e = b.expand_vars(strip_sites(b.def_expr(bi, si)))
+        if e[0] == "call" and last_seg(e[1]) == "re_contains" and const_str(e[2][1]) is not None:
+            deciding.append(const_str(e[2][1]))
+    others = [bi for bi, si in b.defs.get(0, []) if bi not in false_blocks and not (
+        b.expand_vars(strip_sites(b.def_expr(bi, si)))[0] == "call")]
+    if not ctx.require(len(deciding) == 1 and not others and len(necessary) >= 1, "R19-7", "R19-7|%s|structure" % b.path,
+                       "is_arithmetic is not `test && test && ... && test` over regex literals (necessary: %d, deciding: %d)"
+                       % (len(necessary), len(deciding)), b.path):
+        return
+    cache = crate.__dict__.get("_r19_7")
+    if cache is None:
+        alphabet = ["1", ".", "+", "^", "(", ")", " ", "a", "|"]
+        texts = ["".join(t) for n in range(1, 5) for t in itertools.product(alphabet, repeat=n)]
+        res = [True] * len(texts)
+        for pat in necessary + deciding:
+            ms = refacts.matches(pat, texts)
+            res = [x and bool(y) for x, y in zip(res, ms)]
+        ALPHA = set("0123456789.+-*/^() ")
+        bad = []
+        for t, got in zip(texts, res):
+            want = set(t) <= ALPHA and any(c.isdigit() for c in t) and any(c in "+-*/^" for c in t) and t[-1] in "0123456789. )"
+            if want != got and len(bad) < 5:
+                bad.append((t, want, got))
+        cache = (bad, len(texts))
+        crate.__dict__["_r19_7"] = cache
+    bad, n = cache
+    ctx.paths_enumerated += n
+    ctx.ob("R19-7", b.path, "is_arithmetic agrees with the classification rule on %d strings" % n, not bad,
+           key="R19-7|%s|classification" % b.path, crate=crate.kind,
+           detail=None if not bad else "%r: classified %s, the rule says %s" % (
+               bad[0][0], "arithmetic" if bad[0][2] else "not arithmetic", "arithmetic" if bad[0][1] else "not arithmetic"))
